@@ -1,7 +1,7 @@
 """Analysis context shared by the rules: lazily built analyses and the semantic event vocabulary."""
 import time
 
-from . import effects, events, flow, locks, model
+from . import cfgutil, effects, events, flow, locks, model
 from .core import Site, term_path
 from .vfg import place_of
 
@@ -164,6 +164,58 @@ class Ctx(object):
                 body.__dict__["_rf"] = r
             return r
         return self.must(None).rf(body)
+
+    def dominates_threaded(self, b, a_bb, b_bb):
+        """Does block a_bb come before block b_bb on every path - judged on the threaded form of the body when it has
+        one (in a `loop { stage = match stage { .. } }` state machine no arm dominates another in the raw graph)."""
+        if b.dominates(a_bb, b_bb):
+            return True
+        if getattr(b, "is_flat", False):
+            return False
+        from . import flat as flatmod
+        T = flatmod.thread_view(self.prog, b)
+        if T is None:
+            return False
+        live = [x for x in T.normal_blocks() if not T.blocks[x].get("cleanup")]
+        reach = cfgutil.reach(T, 0)
+        A = [x for x in live if T.origin[x][1] == a_bb and x in reach]
+        B = [x for x in live if T.origin[x][1] == b_bb and x in reach]
+        return bool(A) and bool(B) and all(any(T.dominates(x, y) for x in A) for y in B)
+
+    def result_views(self, site):
+        """[(body, site)] where the outcome of the fallible call at `site` is to be judged: its own body - or, when its
+        Result is handed straight to a crate-private function that is not a mere error decorator (a classifier such as
+        `Outcome::classify(fs::rename(..), kind)` answering with an enum the caller matches on), the occurrences of the
+        call in the flat view of the body, where the classifier is inlined and its answer decides the caller's `match`."""
+        b = site.body
+        if getattr(b, "is_flat", False) or site.kind != "call" or site.term["dest"]["p"]:
+            return [(b, site)]
+        holders = {site.term["dest"]["l"]}
+        changed = True
+        while changed:
+            changed = False
+            for l, defs in b.assignments().items():
+                for (dbb, j, rv) in defs:
+                    if j != "term" and rv["k"] == "use" and l not in holders:
+                        pl = rv["op"].get("move") or rv["op"].get("copy")
+                        if pl is not None and not pl["p"] and pl["l"] in holders:
+                            holders.add(l)
+                            changed = True
+        rfb = self.rf(b)
+        handed = False
+        for s2 in b.calls():
+            tgt = self.prog.local_target(s2)
+            if tgt is None or tgt.reachable or s2.bb == site.bb or rfb._is_result_wrapper(s2.term):
+                continue
+            for a in s2.term["args"]:
+                pl = a.get("move") or a.get("copy")
+                if pl is not None and not pl["p"] and pl["l"] in holders:
+                    handed = True
+        if not handed:
+            return [(b, site)]
+        V = self.flat(b)
+        occ = [fs for fs in self.flat_sites_of(V, site) if fs.kind == "call" and not V.blocks[fs.bb].get("cleanup")]
+        return [(V, fs) for fs in occ] or [(b, site)]
 
     def flat_sites_of(self, fbody, site):
         """The occurrences, in a flat view, of a site of the original program."""
@@ -549,6 +601,26 @@ class Ctx(object):
             root = chain[0].body
             inner = chain[-1]
             if len(chain) == 1:
+                lifted = False
+                if root.is_closure and any(how == "param" for (_cs, how) in self.prog.callers_index().get(root.path, [])):
+                    # the effect sits in a closure that a crate-private higher-order helper runs (`while_unclaimed(hash,
+                    # |..| remove_file(..))`): judged in the view of the function that writes the closure, where the
+                    # helper's tests and the closure's body are one control-flow graph
+                    from .prov import _closure_sites
+                    for (pb, _bb, _rv) in _closure_sites(self.prog, root.path):
+                        if pb.is_closure:
+                            continue
+                        V = self.flat(pb, stop=stop)
+                        occ = [fs for fs in self.flat_sites_of(V, inner)
+                               if fs.kind == "call" and not V.blocks[fs.bb].get("cleanup")]
+                        for fs in occ:
+                            k = (pb.path, fs.key(), fs.bb)
+                            if k not in seen:
+                                seen.add(k)
+                                out.append((V, fs, pb))
+                            lifted = True
+                if lifted:
+                    continue
                 k = (root.path, inner.key())
                 if k not in seen:
                     seen.add(k)
